@@ -308,6 +308,10 @@ func fileFlushAux(L *LState, file *lFile) int {
 		return n
 	}
 
+	// bytes read ahead go back to the file: a write after the flush starts at the position of the
+	// handle, not behind the read buffer (fflush on a seekable stream that was last read; a stream
+	// that cannot seek keeps its buffer, as in fileWriteAux)
+	file.AbandonReadBuffer()
 	if bwriter, ok := file.writer.(*bufio.Writer); ok {
 		if err := bwriter.Flush(); err != nil {
 			L.Push(LNil)
